@@ -229,7 +229,19 @@ Theorem zero_energy_and_finiteness :
   (forall a b L E th n t0, a < b -> ARZ_ss_z_to_t a b L E th n t0 <> 0 -> ARZ_max_length_default E <> 0 ->
   (1 <= ARZ_ss_dt_divider a b L E th n t0)%Z /\ (2 <= ARZ_ss_n_RAC a b L E th n t0)%Z /\ (1000 <= ARZ_ss_n_Q a b L E th n t0)%Z)) /\
   ((exists a b L E th n t0, a < b /\ ARZ_ss_z_to_t a b L E th n t0 <> 0) /\
-  (exists E d f th1 th2 thc, 0 < E /\ 0 < d /\ f <> 0 /\ Rabs (th1 - thc) < Rabs (th2 - thc)))).
-Proof. exact C07_zero_energy_and_finiteness_top. Qed.
+  (exists E d f th1 th2 thc, 0 < E /\ 0 < d /\ f <> 0 /\ Rabs (th1 - thc) < Rabs (th2 - thc)))) /\
+  (* second step (with_times / addition then with_times): the pulse of the requested grid, zeros of its length for no shower *)
+  ((forall times times' E d psi n t0, fs_values (fs_with_times (zhs_signal times E d psi n t0) times') = zhs_values times' E d psi n t0) /\
+  (forall times times' emE hadE emf hadf d psi n t0,
+     fs_values (fs_with_times (avz_signal times emE hadE emf hadf d psi n t0) times') = avz_values times' emE hadE emf hadf d psi n t0) /\
+  (forall times times' emE hadE d psi n t0, fs_values (fs_with_times (arz_signal times emE hadE d psi n t0) times') = arz_values times' emE hadE d psi n t0) /\
+  (forall times times' d psi n t0, fs_values (fs_with_times (zhs_signal times 0 d psi n t0) times') = repeat 0 (length times')) /\
+  (forall times times' emf hadf d psi n t0, fs_values (fs_with_times (avz_signal times 0 0 emf hadf d psi n t0) times') = repeat 0 (length times')) /\
+  (forall times times' d psi n t0, fs_values (fs_with_times (arz_signal times 0 0 d psi n t0) times') = repeat 0 (length times')) /\
+  (forall times times' E d psi n t0, length (fs_values (fs_with_times (zhs_signal times E d psi n t0) times')) = length times') /\
+  (forall times times' emE hadE emf hadf d psi n t0, length (fs_values (fs_with_times (avz_signal times emE hadE emf hadf d psi n t0) times')) = length times') /\
+  (forall a b times', length (fs_fun a times') = length times' -> length (fs_fun b times') = length times' ->
+     length (fs_values (fs_with_times (fs_add a b) times')) = length times')).
+Proof. exact C07_zero_energy_and_finiteness_top2. Qed.
 Print Assumptions zero_energy_and_finiteness.
 
